@@ -5,8 +5,8 @@ namespace Poly.Model.CCM
 variable {α ι : Type}
 
 /-- state after a successful `MakeDepositProposal` that returned a message -/
-def afterAccept (env : Env) (s : State α) (src : Nat) (p : MakeTxParam) (aux : α) : State α :=
-  if env.doneGate then { s with aux := aux, done := (src, p.crossChainID) :: s.done } else { s with aux := aux }
+def afterAccept (gate : Bool) (s : State α) (src : Nat) (p : MakeTxParam) (aux : α) : State α :=
+  if gate then { s with aux := aux, done := (src, p.crossChainID) :: s.done } else { s with aux := aux }
 
 /-- Everything an import needs in order to get past the gates with a verified message `p`. -/
 structure Accepted (o : Oracles α ι) (env : Env) (s : State α) (src : Nat) (inp : ι)
@@ -16,7 +16,7 @@ structure Accepted (o : Oracles α ι) (env : Env) (s : State α) (src : Nat) (i
   router_supported : router ∈ supportedRouters
   router_active : ¬ env.height < routerStartBlock env.mainNet router
   verified : o.verify router env s inp = .accept p aux
-  fresh : env.doneGate = true → (src, p.crossChainID) ∉ s.done
+  fresh : doneActive env router = true → (src, p.crossChainID) ∉ s.done
   dst_not_black : p.toChainID ∉ s.black
   dst_registered : s.chains.lookup p.toChainID = some trouter
 
@@ -30,11 +30,11 @@ theorem import_cases (H : Bytes → Bytes) (o : Oracles α ι) (env : Env) (s : 
     ∨ (∃ router p aux trouter, Accepted o env s src inp router p aux trouter ∧
         trouter ≠ BTC_ROUTER ∧ trouter ≠ RIPPLE_ROUTER ∧
         importExTransfer H o env s src inp =
-          ⟨.ok, (makeTransaction H env (afterAccept env s src p aux) p src).1,
-            (makeTransaction H env (afterAccept env s src p aux) p src).2⟩)
+          ⟨.ok, (makeTransaction H env (afterAccept (doneActive env router) s src p aux) p src).1,
+            (makeTransaction H env (afterAccept (doneActive env router) s src p aux) p src).2⟩)
     ∨ (∃ router p aux trouter s2, Accepted o env s src inp router p aux trouter ∧
-        (o.btcMake env (afterAccept env s src p aux) p src = some s2 ∨
-         o.rippleMake env (afterAccept env s src p aux) p src = some s2) ∧
+        (o.btcMake env (afterAccept (doneActive env router) s src p aux) p src = some s2 ∨
+         o.rippleMake env (afterAccept (doneActive env router) s src p aux) p src = some s2) ∧
         importExTransfer H o env s src inp = ⟨.okDelegated, s2, []⟩) := by
   unfold importExTransfer
   by_cases hb : src ∈ s.black
@@ -62,7 +62,7 @@ theorem import_cases (H : Bytes → Bytes) (o : Oracles α ι) (env : Env) (s : 
       · right; left; rw [if_neg hr]
     | accept p aux =>
       simp only
-      by_cases hg : env.doneGate = true
+      by_cases hg : doneActive env router = true
       · simp only [hg, if_true]
         by_cases hd : (src, p.crossChainID) ∈ s.done
         · left; exact ⟨"done", by simp [hd]⟩
@@ -75,7 +75,7 @@ theorem import_cases (H : Bytes → Bytes) (o : Oracles α ι) (env : Env) (s : 
         | some trouter =>
           have hacc : Accepted o env s src inp router p aux trouter :=
             ⟨hb, hl, hsup, hh, hv, fun _ => hd, hdb, hdl⟩
-          have hs1 : afterAccept env s src p aux = { s with aux := aux, done := (src, p.crossChainID) :: s.done } := by
+          have hs1 : afterAccept (doneActive env router) s src p aux = { s with aux := aux, done := (src, p.crossChainID) :: s.done } := by
             simp [afterAccept, hg]
           simp only
           by_cases hbtc : trouter = BTC_ROUTER
@@ -108,7 +108,7 @@ theorem import_cases (H : Bytes → Bytes) (o : Oracles α ι) (env : Env) (s : 
         | some trouter =>
           have hacc : Accepted o env s src inp router p aux trouter :=
             ⟨hb, hl, hsup, hh, hv, fun h => absurd h hg, hdb, hdl⟩
-          have hs1 : afterAccept env s src p aux = { s with aux := aux } := by
+          have hs1 : afterAccept (doneActive env router) s src p aux = { s with aux := aux } := by
             simp [afterAccept, hg]
           simp only
           by_cases hbtc : trouter = BTC_ROUTER
@@ -140,35 +140,36 @@ def DelegatesConfined (o : Oracles α ι) : Prop :=
   ∀ env s p src s2, (o.btcMake env s p src = some s2 ∨ o.rippleMake env s p src = some s2) →
     s2.done = s.done ∧ s2.black = s.black ∧ s2.chains = s.chains
 
-@[simp] theorem afterAccept_black (env : Env) (s : State α) (src : Nat) (p : MakeTxParam) (aux : α) :
+@[simp] theorem afterAccept_black (env : Bool) (s : State α) (src : Nat) (p : MakeTxParam) (aux : α) :
     (afterAccept env s src p aux).black = s.black := by unfold afterAccept; split <;> rfl
-@[simp] theorem afterAccept_chains (env : Env) (s : State α) (src : Nat) (p : MakeTxParam) (aux : α) :
+@[simp] theorem afterAccept_chains (env : Bool) (s : State α) (src : Nat) (p : MakeTxParam) (aux : α) :
     (afterAccept env s src p aux).chains = s.chains := by unfold afterAccept; split <;> rfl
-@[simp] theorem afterAccept_requests (env : Env) (s : State α) (src : Nat) (p : MakeTxParam) (aux : α) :
+@[simp] theorem afterAccept_requests (env : Bool) (s : State α) (src : Nat) (p : MakeTxParam) (aux : α) :
     (afterAccept env s src p aux).requests = s.requests := by unfold afterAccept; split <;> rfl
-theorem afterAccept_done (env : Env) (s : State α) (src : Nat) (p : MakeTxParam) (aux : α) :
-    (afterAccept env s src p aux).done = if env.doneGate then (src, p.crossChainID) :: s.done else s.done := by
+theorem afterAccept_done (g : Bool) (s : State α) (src : Nat) (p : MakeTxParam) (aux : α) :
+    (afterAccept g s src p aux).done = if g then (src, p.crossChainID) :: s.done else s.done := by
   unfold afterAccept; split <;> rfl
 
 /-- What an import does to the done marks, and which message it executed. -/
 theorem import_done (H : Bytes → Bytes) (o : Oracles α ι) (hconf : DelegatesConfined o)
     (env : Env) (s : State α) (src : Nat) (inp : ι) :
     (acceptedId H o s (.importTx env src inp) = none ∧ (importExTransfer H o env s src inp).state.done = s.done)
-    ∨ (∃ p : MakeTxParam, acceptedId H o s (.importTx env src inp) = some (src, p.crossChainID) ∧
-        (env.doneGate = true → (src, p.crossChainID) ∉ s.done) ∧
+    ∨ (∃ (p : MakeTxParam) (g : Bool), acceptedId H o s (.importTx env src inp) = some (src, p.crossChainID) ∧
+        (env.doneGate = true → g = true) ∧
+        (g = true → (src, p.crossChainID) ∉ s.done) ∧
         (importExTransfer H o env s src inp).state.done =
-          if env.doneGate then (src, p.crossChainID) :: s.done else s.done) := by
+          if g then (src, p.crossChainID) :: s.done else s.done) := by
   rcases import_cases H o env s src inp with ⟨c, h⟩ | h | ⟨router, aux, _, _, _, _, _, h⟩ |
       ⟨router, p, aux, tr, hacc, _, _, h⟩ | ⟨router, p, aux, tr, s2, hacc, hm, h⟩
   · left; simp [acceptedId, h, fail]
   · left; simp [acceptedId, h]
   · left; simp [acceptedId, h]
   · right
-    refine ⟨p, ?_, hacc.fresh, ?_⟩
+    refine ⟨p, doneActive env router, ?_, fun hg => by simp [doneActive, hg], hacc.fresh, ?_⟩
     · simp [acceptedId, h, hacc.src_registered, hacc.verified]
     · rw [h]; simp [makeTransaction, afterAccept_done]
   · right
-    refine ⟨p, ?_, hacc.fresh, ?_⟩
+    refine ⟨p, doneActive env router, ?_, fun hg => by simp [doneActive, hg], hacc.fresh, ?_⟩
     · simp [acceptedId, h, hacc.src_registered, hacc.verified]
     · rw [h]
       have := (hconf env _ p src s2 hm).1
@@ -179,7 +180,7 @@ theorem step_done_mono (H : Bytes → Bytes) (o : Oracles α ι) (hconf : Delega
   cases op with
   | importTx env src inp =>
     simp only [step]
-    rcases import_done H o hconf env s src inp with ⟨_, h⟩ | ⟨p, _, _, h⟩
+    rcases import_done H o hconf env s src inp with ⟨_, h⟩ | ⟨p, g, _, _, _, h⟩
     · rw [h]; exact hm
     · rw [h]; split
       · exact List.mem_cons_of_mem _ hm
@@ -219,12 +220,14 @@ theorem count_accepted_eq (H : Bytes → Bytes) (o : Oracles α ι) (hconf : Del
       | importTx env src inp =>
         obtain ⟨hgate, _⟩ := hg
         simp only [step]
-        rcases import_done H o hconf env s src inp with ⟨hnone, hd⟩ | ⟨p, hsome, hfresh, hd⟩
+        rcases import_done H o hconf env s src inp with ⟨hnone, hd⟩ | ⟨p, g, hsome, hg', hfresh, hd⟩
         · right; rw [hnone, hd]; simp
-        · simp only [hgate, if_true] at hd
+        · have hgt := hg' hgate
+          subst hgt
+          simp only [if_true] at hd
           by_cases hmm : (src, p.crossChainID) = m
           · left; subst hmm
-            exact ⟨hsome, hfresh hgate, by rw [hd]; exact List.mem_cons_self⟩
+            exact ⟨hsome, hfresh rfl, by rw [hd]; exact List.mem_cons_self⟩
           · right
             refine ⟨by rw [hsome]; simpa using hmm, ?_⟩
             rw [hd]; simp [Ne.symm hmm]
